@@ -268,8 +268,8 @@ func tqOracle(tc tqCase, o *tqObs) (c06, c15 []string) {
 	// adapter-level deferrals (Retry-After on the transfer itself): the object must not appear in a
 	// batch request that starts before the indicated time
 	for _, cl := range o.Calls {
-		nb, ok := o.NotBefore[cl.Oid]
-		if !ok || !strings.HasPrefix(cl.Outcome, "later") {
+		nb := cl.NotBefore
+		if nb == 0 {
 			continue
 		}
 		for _, b := range o.Batches {
